@@ -191,7 +191,8 @@ class PowHistories(Family):
     name = 'pow_call_histories'
     engine = 'E2'
     nontrivial_rule = 'history contains a chain selection followed by a check'
-    PROBES = [(0, 0x1d00ffff), (0, 0x1e0377ae), (0, 0x207fffff), (0, 0x1d010000), (1 << 230, 0x1e0377ae), (0, 0x01003456), (0, 0x21007fff)]
+    PROBES = [(0, 0x1d00ffff), (0, 0x1e0377ae), (0, 0x207fffff), (0, 0x1d010000), (1 << 230, 0x1e0377ae), (0, 0x01003456), (0, 0x21007fff),
+              (0, 0x1d80ffff), (0, 0x04923456)]          # sign bit set: refused through the exception path, also when repeated
 
     def events(self):
         return [('sel', c) for c in CHAINS] + [('sel', 'nosuchchain')] + [('pow', i) for i in range(len(self.PROBES))]
